@@ -78,7 +78,9 @@ fn main() {
             let count: usize = arg(&args, "--count", "50").parse().unwrap();
             let maxi: usize = arg(&args, "--max-instances", "6").parse().unwrap();
             let mode = arg(&args, "--mode", "mixed");
-            if mode == "probe-content-object" {
+            if mode == "descriptors" {
+                xmlcase::run_descriptors(seed, 6, &mut out);
+            } else if mode == "probe-content-object" {
                 xmlcase::run_probe_content_object(&mut out);
             } else {
                 xmlcase::run_random(seed, count, maxi, &mode, &mut out);
